@@ -96,6 +96,9 @@ type Broker struct {
 	Hook func(inc *Inc, e *Entry) Verdict
 	// After is called after the default handling of an inbound message (feeders: send follow-up traffic).
 	After func(inc *Inc, e *Entry)
+	// ReuseUpAliases: an upstream opened or resumed gets the lowest stream alias that no open upstream of that connection
+	// holds (a closed stream's alias is handed out again), instead of a fresh one every time.
+	ReuseUpAliases bool
 	// OnChunk replaces the default "ack immediately with success" for upstream chunks.
 	OnChunk func(inc *Inc, up *UpState, e *Entry)
 	// AnswerPing false: pings are not answered (dead peer).
@@ -350,6 +353,25 @@ func (b *Broker) newUUID(kind byte) uuid.UUID {
 	return u
 }
 
+// nextUpAlias picks the stream alias for an upstream opened or resumed on inc (b.mu held).
+func (b *Broker) nextUpAlias(inc *Inc) uint32 {
+	if !b.ReuseUpAliases {
+		inc.upAlias++
+		return inc.upAlias
+	}
+	used := map[uint32]bool{}
+	for _, u := range b.ups {
+		if !u.Closed && u.Inc == inc.Index {
+			used[u.Alias] = true
+		}
+	}
+	a := uint32(1)
+	for used[a] {
+		a++
+	}
+	return a
+}
+
 func (b *Broker) handle(inc *Inc, e *Entry) {
 	switch m := e.Msg.(type) {
 	case *message.ConnectRequest:
@@ -371,8 +393,7 @@ func (b *Broker) handle(inc *Inc, e *Entry) {
 		b.mu.Lock()
 		up := &UpState{ID: b.newUUID(0xaa), Session: m.SessionID, QoS: m.QoS, Inc: inc.Index, Aliases: map[uint32]message.DataID{},
 			Rev: map[message.DataID]uint32{}, Chunks: map[uint32][]*Entry{}, OpenReq: m}
-		inc.upAlias++
-		up.Alias = inc.upAlias
+		up.Alias = b.nextUpAlias(inc)
 		var al map[uint32]*message.DataID
 		if b.OpenAliases != nil {
 			al = b.OpenAliases(m)
@@ -407,8 +428,7 @@ func (b *Broker) handle(inc *Inc, e *Entry) {
 		var alias uint32
 		if rc == message.ResultCodeSucceeded {
 			b.mu.Lock()
-			inc.upAlias++
-			alias = inc.upAlias
+			alias = b.nextUpAlias(inc)
 			up.Alias = alias
 			up.Inc = inc.Index
 			up.Resumes++
